@@ -300,7 +300,10 @@ fn episode_inner(ctx: &Ctx, out: &mut Outcome, run_seed: u64, rr: &mut Rng, budg
                         (nsim::mint(&mut r, now_s - 100, protocol, e, id, 15, &srv.addrs, None, &srv.key), "expired-token")
                     }
                     1 => (nsim::mint(&mut r, now_s, protocol, 600, id, 15, &srv.addrs, None, &other_key(&srv.key)), "foreign-key-token"),
-                    2 => (nsim::mint(&mut r, now_s, protocol ^ 0x100, 600, id, 15, &srv.addrs, None, &srv.key), "foreign-protocol-token"),
+                    2 => {
+                        let fp = protocol ^ (1u64 << r.below(64));
+                        (nsim::mint(&mut r, now_s, fp, 600, id, 15, &srv.addrs, None, &srv.key), "foreign-protocol-token")
+                    }
                     _ => (nsim::mint(&mut r, now_s, protocol, 600, id, 15, &[nsim::addr4(250, 1, 1)], None, &srv.key), "wrong-host-token"),
                 };
                 let mut d = request_of(&m);
